@@ -28,8 +28,8 @@ def _norm(v):
         from mxsim import probe
         pth = probe._path_exported(v.__self__)
         return "<Cells %s>" % ((pth + "." if pth else "") + v.__name__)
-    if callable(v) and hasattr(v, "__name__") and not hasattr(v, "__self__"):
-        return "<fn %s>" % v.__name__
+    if callable(v) and hasattr(v, "__name__") and not hasattr(getattr(v, "__self__", None), "_mx_spaces"):
+        return "<fn %s>" % v.__name__      # plain and built-in functions alike (built-ins have __self__ = the module)
     return "<%s>" % type(v).__name__
 
 
